@@ -118,7 +118,7 @@ impl Gz for NgGz {
     unsafe fn clearerr(f: *mut c_void) { unsafe { nggz::gzclearerr(f) } }
 }
 
-fn tmpdir() -> String {
+pub(crate) fn tmpdir() -> String {
     use std::sync::OnceLock;
     static D: OnceLock<String> = OnceLock::new();
     D.get_or_init(|| {
@@ -131,7 +131,7 @@ fn tmpdir() -> String {
 }
 
 #[derive(Clone, Debug)]
-enum WOp {
+pub(crate) enum WOp {
     Write(usize),
     FWrite(usize, usize),
     Putc(u8),
@@ -144,12 +144,12 @@ enum WOp {
 }
 
 #[derive(Clone, Debug, PartialEq)]
-struct Res {
-    ret: i64,
-    data: Vec<u8>,
+pub(crate) struct Res {
+    pub ret: i64,
+    pub data: Vec<u8>,
 }
 
-fn run_write<G: Gz>(path: &str, mode: &str, bufsize: Option<u32>, ops: &[WOp], pool: &[u8]) -> (Option<Vec<Res>>, c_int) {
+pub(crate) fn run_write<G: Gz>(path: &str, mode: &str, bufsize: Option<u32>, ops: &[WOp], pool: &[u8]) -> (Option<Vec<Res>>, c_int) {
     let cp = CString::new(path).unwrap();
     let cm = CString::new(mode).unwrap();
     let f = unsafe { G::open(cp.as_ptr(), cm.as_ptr()) };
@@ -482,7 +482,7 @@ fn write_case(t: &mut Tape, ctx: &Ctx, o: &mut Outcome) {
 }
 
 #[derive(Clone, Debug)]
-enum ROp {
+pub(crate) enum ROp {
     Read(usize),
     FRead(usize, usize),
     Getc,
@@ -495,7 +495,7 @@ enum ROp {
     Direct,
 }
 
-fn run_read<G: Gz>(path: &str, bufsize: Option<u32>, ops: &[ROp]) -> Option<(Vec<Res>, c_int)> {
+pub(crate) fn run_read<G: Gz>(path: &str, bufsize: Option<u32>, ops: &[ROp]) -> Option<(Vec<Res>, c_int)> {
     let cp = CString::new(path).unwrap();
     let cm = CString::new("rb").unwrap();
     let f = unsafe { G::open(cp.as_ptr(), cm.as_ptr()) };
